@@ -354,7 +354,9 @@ func checkC12(c *vlib.Ctx) (string, string) {
 		ops []string
 		n   int
 	}
-	passes := vlib.Pick(c, []pass{{full, 2}, {red, 3}}, []pass{{full, 3}, {red, 4}})
+	// (length 3 over the full alphabet, 2.7 million histories x 5 middlewares x 90 probes, does not finish within the
+	// thorough tier's internal deadline; the thorough tier therefore deepens the reduced alphabet only)
+	passes := vlib.Pick(c, []pass{{full, 2}, {red, 3}}, []pass{{full, 2}, {red, 4}})
 	// Pass 0 is sequential and in simplest-first order: a history that corrupts process-global state (e.g. a
 	// shared singleton slice) is then blamed itself, instead of whichever history happens to run next.
 	w0 := vlib.NewWords(full, 1)
